@@ -59,9 +59,43 @@ def run_cachemon(prop, tier, t0):
                            ], required_counters=req, required_anchors=spec.get('anchors', ()))
 
 
+KEYMON = {
+    'C09': {'quick': {'cases': 8000, 'budget_s': 40}, 'thorough': {'cases': 400000, 'budget_s': 600},
+            'floor': 500, 'req': ['c09_pairs_respelled', 'c09_behaviour_checks'],
+            'anchors': ['keygen_transfer', 'keymap_flat_sorted']},
+    'C10': {'quick': {'cases': 8000, 'budget_s': 40}, 'thorough': {'cases': 400000, 'budget_s': 600},
+            'floor': 500, 'req': ['c10_pairs', 'c10_typed_pairs', 'c10_behaviour_checks'],
+            'anchors': ['keymap_flat_sorted']},
+    'C11': {'quick': {'cases': 6000, 'budget_s': 45}, 'thorough': {'cases': 300000, 'budget_s': 600},
+            'floor': 500, 'req': ['c11_ignored_pairs', 'c11_discriminating_pairs', 'c11_behaviour_checks'],
+            'anchors': ['keygen_crossref']},
+    'C12': {'quick': {'cases': 8000, 'budget_s': 40}, 'thorough': {'cases': 400000, 'budget_s': 600},
+            'floor': 300, 'req': ['c12_receive_checks', 'c12_pairs_expected_merged', 'c12_pairs_expected_split',
+                                  'c12_standalone_checks'],
+            'anchors': ['deep_round_dict']},
+}
+
+
+def run_keymon(prop, tier, t0):
+    from kv import keymon
+    spec = KEYMON[prop]
+    opts = dict(spec[tier])
+    merged, problems = common.run_shards('keymon', prop, tier, common.NCPU, opts,
+                                         timeout=opts['budget_s'] * 3 + 120)
+    return common.conclude(prop, tier, t0, merged, problems, keymon.RULES[prop], spec['floor'],
+                           'keymon', assumptions=ASSUME_COMMON + [
+                               'call equivalence is decided by inspect.signature().bind (+apply_defaults) on the '
+                               'undecorated callable; equivalent pairs re-spell the same objects, distinct pairs '
+                               'differ under Python !=; NaN and address-based reprs are not generated',
+                               'positional-only parameters are outside the quantifier and not generated',
+                           ], required_counters=spec['req'], required_anchors=spec.get('anchors', ()))
+
+
 ENGINES = {}
 for _p in CACHEMON:
     ENGINES[_p] = run_cachemon
+for _p in KEYMON:
+    ENGINES[_p] = run_keymon
 
 
 def do_replay(prop, path):
